@@ -94,6 +94,7 @@ type VC struct {
 	isErrTargets map[string]bool
 	boxes        map[Term]boxInfo
 	stableCache  map[*ssa.Global]Term
+	callArgElems map[string]map[int][]cval // call key -> argument index -> elements of a variadic argument at call time
 	elemInfo     map[Term]elemInfo
 	slicePtr     map[Term]Term
 	prov         map[Term]Term // value term -> untouched entry-state value it was loaded from
